@@ -24,6 +24,10 @@ def ops02 (op : String) (a : List String) : Option String :=
     | [some y, some mo, some d, some h, some mi, some se, some us] =>
       some ("ok\t" ++ esc (LogLine.writeLine ⟨⟨y, mo, d, h, mi, se⟩, us⟩ (unesc rssi) (unesc frame)))
     | _ => none
+  | "log.iso", [y, mo, d, h, mi, se, us] =>
+    match [y, mo, d, h, mi, se, us].map (·.toNat?) with
+    | [some y, some mo, some d, some h, some mi, some se, some us] => some ("ok\t" ++ esc (LogLine.fmtIso ⟨⟨y, mo, d, h, mi, se⟩, us⟩))
+    | _ => none
   | "log.read", [line] =>
     match LogLine.readLine (unesc line) with
     | none => some "err\tValueError"
